@@ -377,6 +377,8 @@ class ModelBackend:
     def get_durable_execution_state(self, DurableExecutionArn, CheckpointToken, Marker, MaxItems=1000, **kw):
         self.get_state_calls += 1
         if self.fail_get_state_at is not None and self.get_state_calls == self.fail_get_state_at:
+            if self.on_call:
+                self.on_call("GetStateFail", {"marker": Marker, "n": self.get_state_calls})
             raise ClientError(500, "ServiceException", "get state failed")
         ops, page = self.state_pages.pop(Marker)
         out = {"Operations": ops[:page]}
